@@ -867,6 +867,7 @@ def metaSeq (e : Env) (h : Handle) (ops : List MetaOp) : M Unit := fun s =>
   (.ok (), (metaSeqTrace e h ops s).2)
 
 def opMeta (e : Env) (p : Path) (ops : List MetaOp) : M Unit := do
+  guardPath p   -- `mc[path]` goes through `_wrap_method("__getitem__")`
   let s ← getSt
   let k ← ofOpt .key (nodeKind s p)
   metaSeq e (openHandle s p k) ops
